@@ -1,59 +1,90 @@
 /-
 C17 — Double-ended month iterators yield each item exactly once in any interleaving.
-(partial: the `RangeInclusive` core that `Days`, `Dates` and `MonthIter` all delegate to)
+
+Refinement: each iterator, driven by *any* finite sequence over {next, next_back, len},
+produces what the obvious specification produces — a list popped from both ends
+(`specRun`).  For a list popped from both ends the claims of the property are immediate:
+fronts come out ascending, backs descending, nothing is repeated or lost, the length is
+exact, and an empty list keeps yielding nothing.
 -/
-import JulianVerif.Model.Iter
+import JulianVerif.Lemmas.Deque
 set_option linter.unusedSimpArgs false
 namespace JV.C17
 open JV
 
-/-- taking from the front yields the first remaining index and shortens the range by one;
-on an empty range it yields nothing and changes nothing -/
-theorem next_spec (r : RangeIncl) :
-    (r.isEmpty = true → r.next = (none, r))
-    ∧ (r.isEmpty = false → (r.next).1 = some r.start ∧ (r.next).2.len = r.len - 1
-          ∧ (r.next).2.stop = r.stop) := by
-  constructor
-  · intro h; simp [RangeIncl.next, h]
-  · intro h
-    simp only [RangeIncl.isEmpty, Bool.or_eq_false_iff, decide_eq_false_iff_not] at h
-    obtain ⟨he, hs⟩ := h
-    by_cases c : r.start < r.stop
-    · have e2 : ¬ (r.start + 1 > r.stop) := by omega
-      simp [RangeIncl.next, RangeIncl.isEmpty, RangeIncl.len, he, hs, c, e2]; omega
-    · have : r.start = r.stop := by omega
-      simp [RangeIncl.next, RangeIncl.isEmpty, RangeIncl.len, he, hs, c, this]
+/-- the `RangeInclusive` core all three iterators delegate to -/
+theorem range_refines (r : RangeIncl) (ops : List DOp) : r.run ops = specRun r.toList ops :=
+  r.run_refines ops
 
-/-- taking from the back, symmetrically -/
-theorem nextBack_spec (r : RangeIncl) :
-    (r.isEmpty = true → r.nextBack = (none, r))
-    ∧ (r.isEmpty = false → (r.nextBack).1 = some r.stop ∧ (r.nextBack).2.len = r.len - 1
-          ∧ (r.nextBack).2.start = r.start) := by
-  constructor
-  · intro h; simp [RangeIncl.nextBack, h]
-  · intro h
-    simp only [RangeIncl.isEmpty, Bool.or_eq_false_iff, decide_eq_false_iff_not] at h
-    obtain ⟨he, hs⟩ := h
-    by_cases c : r.start < r.stop
-    · have e2 : ¬ (r.start > r.stop - 1) := by omega
-      simp [RangeIncl.nextBack, RangeIncl.isEmpty, RangeIncl.len, he, hs, c, e2]; omega
-    · have : r.start = r.stop := by omega
-      simp [RangeIncl.nextBack, RangeIncl.isEmpty, RangeIncl.len, he, hs, c, this]
+/-- **`MonthShape::days()`**: any interleaving yields the month's day list
+`[nth_day 1, …, nth_day len]` popped from both ends, with exact lengths -/
+theorem days_refines (s : MonthShape) (ops : List DOp) :
+    (Days.new s).run ops = (specRun (ival 1 s.len.toNat) ops).map (DOut.map s.nthDay) :=
+  Days.run_refines s ops
 
-/-- once empty, always empty: after exhaustion the iterators keep returning nothing -/
-theorem fused (r : RangeIncl) (h : r.isEmpty = true) :
-    (r.next).2.isEmpty = true ∧ (r.nextBack).2.isEmpty = true ∧ r.len = 0 := by
-  simp [RangeIncl.next, RangeIncl.nextBack, RangeIncl.len, h]
+/-- **`MonthIter`**: any interleaving yields January … December popped from both ends; the
+`.expect` in it can never fire because 1..=12 are month numbers -/
+theorem months_refines (ops : List DOp) :
+    MonthIter.new.run ops = (specRun (ival 1 12) ops).map (DOut.map Month.ofInt?) :=
+  MonthIter.run_refines ops
 
-/-- the reported length is never negative and is zero exactly on an empty range -/
-theorem len_exact (r : RangeIncl) : 0 ≤ r.len ∧ (r.len = 0 ↔ r.isEmpty = true) := by
-  simp only [RangeIncl.len, RangeIncl.isEmpty]
-  by_cases he : r.exhausted = true <;> by_cases hs : r.start > r.stop <;> simp [he, hs] <;> omega
+/-- **`MonthShape::dates()`**: any interleaving yields the dates at the iterated in-month
+ordinals popped from both ends; the iterated ordinals are `start..=end` after trimming the
+unrepresentable ones at either end (fix F5), and nothing representable is trimmed -/
+theorem dates_refines (s : MonthShape) (ops : List DOp) :
+    (Dates.new s).run ops
+      = (specRun (Dates.new s).inner.toList ops).map (DOut.mapD s.nthDate)
+    ∧ (∀ k, 1 ≤ k → k ≤ s.len →
+        (k < (Dates.new s).inner.start ∨ (Dates.new s).inner.stop < k) → s.nthDate k = none) :=
+  ⟨Dates.run_refines (Dates.new s) ops, fun k h1 h2 h => Dates.new_complete s k h1 h2 h⟩
+
+/-- the specification itself has the claimed properties: the reported length is exact and
+drops by one per item taken, from either end -/
+theorem spec_len {α : Type} (l : List α) :
+    l.tail.length = l.length - 1 ∧ l.dropLast.length = l.length - 1 := by
+  constructor <;> simp
+
+/-- after exhaustion the specification keeps returning nothing -/
+theorem spec_fused {α : Type} (ops : List DOp) :
+    ∀ o ∈ specRun ([] : List α) ops, (match o with | .item x => x.isNone = true | .len n => n = 0) := by
+  induction ops with
+  | nil => intro o h; cases h
+  | cons op ops ih =>
+    intro o h
+    cases op with
+    | front =>
+      simp only [specRun, List.mem_cons, List.head?_nil, List.tail_nil] at h
+      rcases h with rfl | h
+      · simp
+      · exact ih o h
+    | back =>
+      simp only [specRun, List.mem_cons, List.getLast?_nil, List.dropLast_nil] at h
+      rcases h with rfl | h
+      · simp
+      · exact ih o h
+    | len =>
+      simp only [specRun, List.mem_cons, List.length_nil] at h
+      rcases h with rfl | h
+      · simp
+      · exact ih o h
+
+/-- one step of the specification: what is taken from the front is the head and the rest is
+the tail; what is taken from the back is the last element and the rest is the list without
+it — so no item is ever repeated or lost, fronts ascend and backs descend in list order -/
+theorem spec_step {α : Type} (l : List α) (ops : List DOp) :
+    specRun l (.front :: ops) = .item l.head? :: specRun l.tail ops
+    ∧ specRun l (.back :: ops) = .item l.getLast? :: specRun l.dropLast ops
+    ∧ specRun l (.len :: ops) = .len l.length :: specRun l ops := ⟨rfl, rfl, rfl⟩
 
 /-- `MonthIter` never hits its `.expect`: every index of `1..=12` is a month number -/
 theorem monthIter_no_panic (n : Int) (h1 : 1 ≤ n) (h2 : n ≤ 12) : (Month.ofInt? n).isSome = true := by
   have : n = 1 ∨ n = 2 ∨ n = 3 ∨ n = 4 ∨ n = 5 ∨ n = 6 ∨ n = 7 ∨ n = 8 ∨ n = 9 ∨ n = 10
       ∨ n = 11 ∨ n = 12 := by omega
   rcases this with rfl | rfl | rfl | rfl | rfl | rfl | rfl | rfl | rfl | rfl | rfl | rfl <;> rfl
+
+/-- a concrete interleaving on October 1582 (21 days, 5–14 removed) -/
+example : (Days.new ⟨Calendar.reform1582, 1582, .october, .gapped 5 14 31⟩).run
+      [.front, .back, .len, .front, .back]
+    = [.item (some 1), .item (some 31), .len 19, .item (some 2), .item (some 30)] := by rfl
 
 end JV.C17
